@@ -392,6 +392,31 @@ func c05ConfigEnum(thorough bool) mc.Enum {
 		}
 	}
 	rec(nil)
+	// several identical purchases in one block (their gauges share one identity), then reward blocks
+	for n := 2; n <= 4; n++ {
+		for _, pr := range [][2]int64{{30, 1_000_000_000}, {365, 5_000_000_000_000}} {
+			n, pr := n, pr
+			e.Cases = append(e.Cases, mc.Case{Desc: fmt.Sprintf("equal-purchases|n=%d|days=%d|bytes=%d", n, pr[0], pr[1]), Run: func(env world.Env) mc.CaseResult {
+				w := env.W()
+				cr := mc.CaseResult{Class: "no-panic"}
+				ok := 0
+				for _, b := range []string{"P1", "P2", "P3", "feeder"}[:n] {
+					if env.Deliver(storagetypes.NewMsgBuyStorage(w.A(b).Bech, w.A(b).Bech, pr[0], pr[1], "ujkl")).OK() {
+						ok++
+					}
+				}
+				cr.Nontrivial = ok >= 2
+				for b := 0; b < 8; b++ {
+					if bp := env.NextBlock(day); bp != nil {
+						cr.Class = "panic"
+						cr.Viols = append(cr.Viols, viol("block-processing-never-panics", panicSig(bp), "%d identical purchases (%d days, %d bytes) in one block: %s of height %d panicked: %s", n, pr[0], pr[1], bp.Phase, bp.Height, bp.Value))
+						break
+					}
+				}
+				return cr
+			}})
+		}
+	}
 	return e
 }
 
@@ -400,7 +425,7 @@ func init() {
 	prev := Props["C05"].Run
 	Props["C05"] = Prop{Level: "model_checking", Run: func(r *mc.Run, tier string) {
 		prev(r, tier)
-		r.Rules = append(r.Rules, "plus an exhaustive enumeration of reward-block configurations: up to 3 (thorough 4) files, each with FileSize in {1,1000,2^62,2^63-1}, one or two provers, pay-once or plan-paid, posted and proven through real messages, followed by eight one-day blocks (past the first removal of lapsed provers)")
+		r.Rules = append(r.Rules, "plus an exhaustive enumeration of reward-block configurations: up to 3 (thorough 4) files, each with FileSize in {1,1000,2^62,2^63-1}, one or two provers, pay-once or plan-paid, posted and proven through real messages, followed by eight one-day blocks (past the first removal of lapsed provers); and 2-4 identical purchases in one block followed by eight one-day blocks")
 		dl := time.Now().Add(40 * time.Second)
 		if tier == "thorough" {
 			dl = time.Now().Add(15 * time.Minute)
